@@ -776,3 +776,55 @@ func runC18Concurrent(rep *sim.Reporter, id string, seed int64) {
 }
 
 var _ = schema.GroupVersionResource{}
+
+// Handlers with their own resync period: after RemoveEventHandlers (and after Close) nothing more
+// arrives, whatever else stays subscribed. Deterministic small sequences through the same executor.
+func TestVerif_C18_ResyncTimers(t *testing.T) {
+	rep := sim.R()
+	n := 0
+	for _, other := range []string{"none", "subscribed", "with-handler"} {
+		for _, objs := range []int{1, 3} {
+			for _, handlers := range []int{1, 2} {
+				for _, tail := range []string{"rmh", "rmh-close", "rmh-close-resub"} {
+					var ops []c18Op
+					ops = append(ops, c18Op{Op: "sub", Sub: 0})
+					if other != "none" {
+						ops = append(ops, c18Op{Op: "sub", Sub: 1})
+					}
+					if other == "with-handler" {
+						ops = append(ops, c18Op{Op: "addh", Sub: 1})
+					}
+					for i := 0; i < objs; i++ {
+						ops = append(ops, c18Op{Op: "create"})
+					}
+					for i := 0; i < handlers; i++ {
+						ops = append(ops, c18Op{Op: "addhr", Sub: 0})
+					}
+					ops = append(ops, c18Op{Op: "update"}, c18Op{Op: "rmh", Sub: 0})
+					if tail != "rmh" {
+						ops = append(ops, c18Op{Op: "close", Sub: 0})
+					}
+					if tail == "rmh-close-resub" {
+						ops = append(ops, c18Op{Op: "sub", Sub: 0}, c18Op{Op: "addhr", Sub: 0}, c18Op{Op: "update"})
+					}
+					id := fmt.Sprintf("c18-timers-%s-o%d-h%d-%s", other, objs, handlers, tail)
+					if !sim.WantCase(id) {
+						continue
+					}
+					n++
+					t.Run(id, func(t *testing.T) {
+						t.Parallel()
+						rep.Begin("C18", id)
+						var ok bool
+						var applied int
+						if stack, p := sim.Guard(func() { ok, applied = runC18Sequence(rep, id, 2, 1, ops) }); p {
+							rep.Violation("C18", id, "panic:"+sim.PanicSite(stack), "the informer factory panicked: "+stack, map[string]interface{}{"ops": fmt.Sprint(ops)})
+						}
+						rep.Case("C18", id, applied == len(ops), id, map[string]interface{}{"ops": fmt.Sprint(ops), "ok": ok})
+					})
+				}
+			}
+		}
+	}
+	rep.Note("C18", fmt.Sprintf("resync-timer sequences: %d", n))
+}
